@@ -509,6 +509,10 @@ pub struct Scn14 {
     /// has been asked for attempts 0..=200 before (clones must not share anything)
     #[serde(default)]
     pub sibling_cap_us: Option<u64>,
+    /// with `sibling_cap_us`: the backoff under test is a clone of the *used* sibling itself,
+    /// reconfigured afterwards (false: a clone of their common, never used template)
+    #[serde(default)]
+    pub derived_from_used: bool,
 }
 
 /// u64::MAX microseconds stands for Duration::MAX ("no cap" written as a cap)
@@ -525,8 +529,9 @@ const YEAR_MS: u64 = 365 * 24 * 3600 * 1000;
 pub fn gen14(rng: &mut Rng, tier: Tier) -> Scn14 {
     let via = rng.below(2) as u8;
     let kind = *rng.pick(&[0u8, 0, 0, 1, 2]);
-    let initial_us = *rng.pick(&[0u64, 1_000, 100_000, 100_000, 1_000_000, 3_600_000_000, 86_400_000_000]);
-    let max_us = *rng.pick(&[None, Some(50_000u64), Some(5_000_000), Some(5_000_000), Some(3_600_000_000), Some(30 * 86_400_000_000), Some(u64::MAX)]);
+    let initial_us = *rng.pick(&[0u64, 1_000, 100_000, 100_000, 300_000, 400_000, 1_000_000, 3_600_000_000, 86_400_000_000]);
+    // (caps that are not a whole multiple of the initial interval, too)
+    let max_us = *rng.pick(&[None, Some(50_000u64), Some(250_000), Some(700_000), Some(1_000_000), Some(5_000_000), Some(5_000_000), Some(3_600_000_000), Some(30 * 86_400_000_000), Some(u64::MAX)]);
     // reconnect's exponential constructors always use multiplier 2 and a cap
     let mult_tenths = if via == 0 { 2000 } else { *rng.pick(&[1000u32, 1001, 1010, 1020, 1500, 2000, 2000, 3000, 10_000]) };
     let max_us = if via == 0 && kind != 2 { Some(max_us.unwrap_or(5_000_000)) } else { max_us };
@@ -536,11 +541,12 @@ pub fn gen14(rng: &mut Rng, tier: Tier) -> Scn14 {
     };
     let rf_eighths = *rng.pick(&[0u32, 2, 4, 8]);
     let sibling_cap_us = if via == 1 && kind != 2 && rng.chance(1, 3) { Some(*rng.pick(&[1_000u64, 50_000, 1_000_000])) } else { None };
-    Scn14 { via, initial_us, mult_tenths, max_us, rf_eighths, kind, attempts, sibling_cap_us }
+    let derived_from_used = sibling_cap_us.is_some() && max_us.is_some() && rng.chance(1, 2);
+    Scn14 { via, initial_us, mult_tenths, max_us, rf_eighths, kind, attempts, sibling_cap_us, derived_from_used }
 }
 
 pub fn valid14(s: &Scn14) -> bool {
-    s.via <= 1 && s.kind <= 2 && s.initial_us <= 86_400_000_000 && s.mult_tenths >= 1000 && s.mult_tenths <= 10_000 && s.rf_eighths <= 8 && s.attempts >= 1 && s.attempts <= 10_000 && (s.via == 1 || s.kind == 2 || s.max_us.is_some()) && (s.via == 1 || s.mult_tenths == 2000) && (s.sibling_cap_us.is_none() || (s.via == 1 && s.kind != 2))
+    s.via <= 1 && s.kind <= 2 && s.initial_us <= 86_400_000_000 && s.mult_tenths >= 1000 && s.mult_tenths <= 10_000 && s.rf_eighths <= 8 && s.attempts >= 1 && s.attempts <= 10_000 && (s.via == 1 || s.kind == 2 || s.max_us.is_some()) && (s.via == 1 || s.mult_tenths == 2000) && (s.sibling_cap_us.is_none() || (s.via == 1 && s.kind != 2)) && (!s.derived_from_used || (s.sibling_cap_us.is_some() && s.max_us.is_some()))
 }
 
 fn build_backoff(s: &Scn14) -> Arc<dyn IntervalFunction> {
@@ -548,13 +554,18 @@ fn build_backoff(s: &Scn14) -> Arc<dyn IntervalFunction> {
     match s.kind {
         0 => {
             let template = ExponentialBackoff::new(init).multiplier(s.mult_tenths as f64 / 1000.0);
+            let mut used = None;
             if let Some(c) = s.sibling_cap_us {
                 let sibling = template.clone().max_interval(Duration::from_micros(c));
                 for a in 0..=200 {
                     let _ = sibling.next_interval(a);
                 }
+                used = Some(sibling);
             }
-            let mut b = template.clone();
+            let mut b = match used {
+                Some(u) if s.derived_from_used => u.clone(),
+                _ => template.clone(),
+            };
             if let Some(m) = s.max_us {
                 b = b.max_interval(cap_dur(m));
             }
@@ -562,13 +573,18 @@ fn build_backoff(s: &Scn14) -> Arc<dyn IntervalFunction> {
         }
         1 => {
             let template = ExponentialRandomBackoff::new(init, s.rf_eighths as f64 / 8.0).multiplier(s.mult_tenths as f64 / 1000.0);
+            let mut used = None;
             if let Some(c) = s.sibling_cap_us {
                 let sibling = template.clone().max_interval(Duration::from_micros(c));
                 for a in 0..=200 {
                     let _ = sibling.next_interval(a);
                 }
+                used = Some(sibling);
             }
-            let mut b = template.clone();
+            let mut b = match used {
+                Some(u) if s.derived_from_used => u.clone(),
+                _ => template.clone(),
+            };
             if let Some(m) = s.max_us {
                 b = b.max_interval(cap_dur(m));
             }
@@ -775,7 +791,7 @@ impl Prop for C14 {
                         // kinds 2 and 3: the same two backoffs as clones of a template with a used sibling
                         let sibling_cap_us = if kind >= 2 { Some(1_000u64) } else { None };
                         let kind = kind % 2;
-                        let s = Scn14 { via: 1, initial_us, mult_tenths, max_us, rf_eighths: 4, kind, attempts: 1, sibling_cap_us };
+                        let s = Scn14 { via: 1, initial_us, mult_tenths, max_us, rf_eighths: 4, kind, attempts: 1, sibling_cap_us, derived_from_used: kind == 1 && sibling_cap_us.is_some() && max_us.is_some() };
                         let f = build_backoff(&s);
                         let mut prev: Option<Duration> = None;
                         for a in attempts.iter() {
